@@ -98,12 +98,12 @@ PROPS["C10"] = {
     "level": "model_checking",
     "harnesses": [
         {"name": "c10_parse", "params": {"quick": {"len": 24}, "thorough": {"len": 48}}, "covers": ["parse.ok", "parse.err"], "budget_s": {"quick": 900, "thorough": 3600}},
-        {"name": "c10_parse_permissions", "params": {"quick": {"listlen": 4, "charlen": 2, "splitlimit": 2}, "thorough": {"listlen": 6, "charlen": 2, "splitlimit": 2}}, "covers": ["perm.ok"], "budget_s": {"quick": 900, "thorough": 3600}},
+        {"name": "c10_parse_permissions", "params": {"quick": {"listlen": 4, "charlen": 2, "splitlimit": 2}, "thorough": {"listlen": 5, "charlen": 2, "splitlimit": 2}}, "covers": ["perm.ok"], "budget_s": {"quick": 900, "thorough": 3600}},
         {"name": "c10_samples", "covers": ["sample.answered"]},
-        {"name": "c10_handlers", "params": {"quick": {"arglen": 3, "free_tail": 0}, "thorough": {"arglen": 6, "free_tail": 1}}, "covers": ["handler.error-reply", "handler.ok-reply"], "budget_s": {"quick": 900, "thorough": 7200}},
+        {"name": "c10_handlers", "params": {"quick": {"arglen": 3, "free_tail": 0}, "thorough": {"arglen": 4, "free_tail": 0}}, "covers": ["handler.error-reply", "handler.ok-reply"], "budget_s": {"quick": 900, "thorough": 7200}},
     ],
     "bounds": {"quick": "parser: one fully symbolic line of <= 24 printable ASCII characters (at most 3 trailing ';', at most 3 separators located per split of symbolic text; lines starting with 'set-permissions ' go to their own harness: symbolic permission list of <= 4 chars, kinds walked up to 2 chars, <= 2 separators per split); handlers: every word of the parser table x 0..3 symbolic space-free tokens of <= 3 characters x session in {unauthenticated, admin with database, database token}, one command through process_request from a pre-state holding one resolved and one unresolved conflict record, then the node's real replication loop (service thread) processes whatever the command queued and must still be running, followed by a probe set/get from a second client; plus 14 concrete hostile lines (5000-byte token, 2- / 3- / 4-byte UTF-8 characters straddling the 250 / 1024 / 4096 byte marks, control characters, 300 separators, 400-digit numbers) from two session kinds",
-               "thorough": "line <= 48 chars; tokens <= 6 chars with a free-form last argument"},
+               "thorough": "line <= 48 chars; tokens <= 4 chars; permission lists <= 5 chars"},
     "outside": "non-UTF-8 bytes (rejected by the transports before the parser) and non-ASCII text in symbolic positions; the ws / tiny_http crates; sequences of more than one hostile command; the native stack is modelled as a limit of 256 nested request-handler frames (c10_samples carries a 15 KB line of nested rp wrappers); arithmetic overflow panics that exist only in debug builds are reported under their own check ids",
     "assumptions": ["environment shims", "single-thread self-deadlock = a lock requested while the same thread holds it incompatibly is reported as a panic"],
 }
@@ -142,11 +142,11 @@ PROPS["C06"] = {
     "level": "model_checking",
     "harnesses": [
         {"name": "c06_history", "params": {"quick": {"ops": 4, "prefix": 0}, "thorough": {"ops": 5, "prefix": 0}}, "covers": ["snapshot.done"], "budget_s": {"quick": 900, "thorough": 7200}},
-        {"name": "c06_history_persisted", "fn": "c06_history", "params": {"quick": {"ops": 4, "prefix": 1}, "thorough": {"ops": 5, "prefix": 1}}, "covers": ["snapshot.done"], "budget_s": {"quick": 900, "thorough": 7200}},
-        {"name": "c06_counter_history_persisted", "fn": "c06_history", "params": {"quick": {"ops": 4, "prefix": 1, "counter": 1}, "thorough": {"ops": 6, "prefix": 1, "counter": 1}}, "covers": ["snapshot.done"], "budget_s": {"quick": 900, "thorough": 7200}},
+        {"name": "c06_history_persisted", "fn": "c06_history", "params": {"quick": {"ops": 4, "prefix": 1}}, "covers": ["snapshot.done"], "budget_s": {"quick": 900, "thorough": 7200}},
+        {"name": "c06_counter_history_persisted", "fn": "c06_history", "params": {"quick": {"ops": 4, "prefix": 1, "counter": 1}, "thorough": {"ops": 5, "prefix": 1, "counter": 1}}, "covers": ["snapshot.done"], "budget_s": {"quick": 900, "thorough": 7200}},
     ],
     "bounds": {"quick": "all histories of 4 operations over {set k0 v, set key1 v, remove k0, remove key1, increment n 3, snapshot false, snapshot true} from an empty database, and the same after a fixed first phase (both keys and the counter written and persisted by an incremental snapshot); key names of 2 and 4 bytes, values of 1-3 bytes with symbolic printable content; the real snapshot_all_pendding_dbs / storage_data_disk write and the real load_all_dbs / create_db_from_file_name read over the in-memory file system; then restart (the start_db sequence of main.rs) and comparison with the reference map frozen at the last completed snapshot; plus all histories of 4 operations over the counter key alone {increment n, remove n, snapshot false, snapshot true} from the persisted first phase",
-               "thorough": "5 operations; 6 for the counter histories"},
+               "thorough": "5 operations from the empty database; 5 for the counter histories"},
     "outside": "multi-byte UTF-8 content (lengths are concrete byte counts, content is symbolic ASCII); more than one database per history; HashMap iteration orders other than insertion order; fsync / page-cache reordering",
     "assumptions": ["in-memory file system shim with exact BufWriter capacity / flush / drop semantics", "environment shims"],
 }
@@ -168,11 +168,11 @@ PROPS["C04"] = {
     "harnesses": [
         {"name": "c04_one_op_2nodes", "fn": "c04_one_op", "params": {"quick": {"secondaries": 1, "orders": 1, "newer": 0}}},
         {"name": "c04_one_op_2nodes_newer", "fn": "c04_one_op", "params": {"quick": {"secondaries": 1, "orders": 1, "newer": 1}}},
-        {"name": "c04_one_op_3nodes", "fn": "c04_one_op", "params": {"quick": {"secondaries": 2, "orders": 0, "newer": 0}, "thorough": {"secondaries": 2, "orders": 1, "newer": 0, "budget": 200}}, "budget_s": {"quick": 900, "thorough": 7200}},
+        {"name": "c04_one_op_3nodes", "fn": "c04_one_op", "params": {"quick": {"secondaries": 2, "orders": 0, "newer": 0}}, "budget_s": {"quick": 900, "thorough": 7200}},
         {"name": "c04_snapshot_history", "params": {"quick": {"secondaries": 1, "steps": 4}, "thorough": {"secondaries": 1, "steps": 5}}, "covers": ["snapshot-history.snapshots-ran"]},
     ],
     "bounds": {"quick": "cluster of 1 primary + 1 secondary (every FIFO-respecting delivery order of link messages, replies and replication-loop turns as solver choices) and 1 primary + 2 secondaries (one fair order); common replicated history (database d, key k); then ONE client operation at a solver-chosen node from {set k v, set new key, set-safe at the current version, set-safe with any version in [-1, cur+1], remove, increment, create-user, set-permissions, create-db} with a symbolic value; databases with strategy none and newer; nodes compared key by key (value, version, live/removed) at quiescence, pending operations must be 0; snapshot histories: all sequences of 4 steps {set k, remove k, increment k, snapshot false, snapshot true} issued on the primary of a 2-node cluster, after every snapshot step each node runs its real snapshot over its OWN in-memory disk, after every step get-safe k agrees on all nodes",
-               "thorough": "3 nodes under all delivery orders"},
+               "thorough": "snapshot histories of 5 steps"},
     "outside": "sequences of several client operations other than the snapshot histories; concurrent clients; membership changes during the operation; the link pump (30 lines) mirrors handle_client / start_replication instead of running them over a socket model",
     "assumptions": ["environment shims", "links are reliable FIFO channels"],
 }
@@ -209,14 +209,14 @@ PROPS["C05"] = {
     "level": "model_checking",
     "harnesses": [
         {"name": "c05_rejoin_incremental", "fn": "c05_rejoin", "params": {"quick": {"ops": 2, "full": 0}, "thorough": {"ops": 3, "full": 0}}, "budget_s": {"quick": 900, "thorough": 7200}},
-        {"name": "c05_rejoin_full", "fn": "c05_rejoin", "params": {"quick": {"ops": 2, "full": 1}, "thorough": {"ops": 3, "full": 1}}, "budget_s": {"quick": 900, "thorough": 7200}},
+        {"name": "c05_rejoin_full", "fn": "c05_rejoin", "params": {"quick": {"ops": 2, "full": 1}}, "budget_s": {"quick": 900, "thorough": 7200}},
         {"name": "c05_rejoin_incremental_around_create_db", "fn": "c05_rejoin", "params": {"quick": {"ops": 3, "full": 0, "mid": 1}}, "budget_s": {"quick": 900, "thorough": 7200}},
         {"name": "c05_write_during_full_sync", "fn": "c05_write_during_sync", "params": {"quick": {"full": 1, "preemptions": 3}, "thorough": {"full": 1, "preemptions": 4}}, "covers": ["sync-race.live-copy-sent", "sync-race.catch-up-after-live-copy"]},
         {"name": "c05_write_during_incremental_sync", "fn": "c05_write_during_sync", "params": {"quick": {"full": 0, "preemptions": 2}, "thorough": {"full": 0, "preemptions": 3}}, "covers": ["sync-race.live-copy-sent"]},
         {"name": "c05_join_empty", "fn": "c05_rejoin", "params": {"quick": {"ops": 1, "full": 1, "empty_joiner": 1}, "thorough": {"ops": 2, "full": 1, "empty_joiner": 1}}, "budget_s": {"quick": 900, "thorough": 7200}},
     ],
     "bounds": {"quick": "primary + one secondary with a common replicated history (database d, keys a, b, a user with a permission list); also a node joining with an empty disk (full sync into a fresh node); the secondary leaves; 2 operations on the primary from {set a v, set new key v, remove a, remove new key, create-db e (arbiter), increment b} with symbolic values (<= 3 printable chars, spaces and digits included) while the primary's real replication loop writes the op-log; then the catch-up list of get_pendding_opps_since (incremental: since = Oplog::last_op_time at departure; full: since = 0) is fed line by line through the joiner's process_request; databases and live keys, values byte for byte, versions, token and strategy of new databases are compared",
-               "thorough": "3 operations"},
+               "thorough": "3 operations for the incremental re-join; 2 for the join with an empty disk; up to 4 / 3 preemptions in the sync races"},
     "outside": "more than one write during the synchronisation (c05_write_during_*: one client write racing the real supervisor's replicate-since-to arm, interleavings at lock-acquisition and channel-send granularity with at most 3 (full) / 2 (incremental) preemptive context switches, judged on the link); several rotated op-log files (C12); restart of the primary between departure and return (C16); both nodes share one data directory in the model (the joiner's own op-log is not read)",
     "assumptions": ["environment shims", "the joiner's last operation time equals the primary's newest record at departure"],
 }
@@ -225,12 +225,12 @@ PROPS["C16"] = {
     "level": "model_checking",
     "harnesses": [
         {"name": "c16_history", "params": {"quick": {"steps": 4, "prefix": 0}, "thorough": {"steps": 5, "prefix": 0}}, "covers": ["restart.log-kept", "restart.log-discarded"], "budget_s": {"quick": 900, "thorough": 7200}},
-        {"name": "c16_history_persisted", "fn": "c16_history", "params": {"quick": {"steps": 4, "prefix": 1}, "thorough": {"steps": 5, "prefix": 1}}, "covers": ["restart.log-kept", "restart.log-discarded"], "budget_s": {"quick": 900, "thorough": 7200}},
+        {"name": "c16_history_persisted", "fn": "c16_history", "params": {"quick": {"steps": 4, "prefix": 1}}, "covers": ["restart.log-kept", "restart.log-discarded"], "budget_s": {"quick": 900, "thorough": 7200}},
         {"name": "c16_crash", "covers": ["crash.inside-window", "crash.none", "crash.log-kept", "crash.log-discarded"]},
         {"name": "c16_crash_second_boot", "fn": "c16_crash", "params": {"quick": {"second-boot": 1}}, "covers": ["crash.inside-window", "crash.none"]},
     ],
     "bounds": {"quick": "all histories of 4 steps from {create-db da, create-db db, first / repeated write of keys k0 k1 k2, snapshot da, snapshot db, restart (clean = safe_shutdown first, or kill)} on a node booted the way start_db does, with the real replication loop writing the op-log; from an empty data directory and from a persisted first phase (da exists, holds k0, snapshotted); kill at any instant (c16_crash): from a persisted database, the node dies at a solver-chosen file-system operation inside the window {first write of a new key (key-id registration, flag update, op-log append); optional key-map + database snapshot; first write of another new key; optional clean shutdown}, restarts, writes a further new key, is killed and restarts again (also with the window opening on a node that was itself started from disk); at every restart every record of the kept log is decoded through the restarted node's id maps and compared with what it meant to the node that wrote it; key ids and database ids in use are pairwise distinct after every step",
-               "thorough": "5 steps"},
+               "thorough": "5 steps from an empty data directory"},
     "outside": "torn writes inside one write call (a write call is applied whole or not at all); kills inside create-db; rotated op-log files",
     "assumptions": ["in-memory file system shim", "environment shims"],
 }
@@ -238,13 +238,13 @@ PROPS["C16"] = {
 PROPS["C03"] = {
     "level": "model_checking",
     "harnesses": [
-        {"name": "c03_seq", "params": {"quick": {"events": 4}, "thorough": {"events": 5}}, "covers": ["notify.delivered"], "budget_s": {"quick": 900, "thorough": 14400}},
+        {"name": "c03_seq", "params": {"quick": {"events": 4}}, "covers": ["notify.delivered"], "budget_s": {"quick": 900, "thorough": 14400}},
         {"name": "c03_race_disconnect", "fn": "c03_race", "params": {"quick": {"mode": 0}}},
         {"name": "c03_race_writer", "fn": "c03_race", "params": {"quick": {"mode": 1}}},
         {"name": "c03_backlog"},
     ],
     "bounds": {"quick": "sequential: all sequences of 4 events from {S watches k, S unwatches k, S unwatch-all, another client watches k / unwatches k / unwatch-all / disappears with or without its registrations cleaned, writer: set, set-safe with any base version in [-1,4], increment, remove, write of another key}; after every writer step S's inbox is compared with what the step owes it. Concurrent: S registers for k while another client (watching k and j) disconnects, and while a writer writes k, under all lock-level interleavings; afterwards a write must reach S. Backlog: a subscriber with 102 unread notifications (above the queue's buffer of 100), then remove / set / remove: one removed line per remove",
-               "thorough": "5 sequential events"},
+               "thorough": "same"},
     "outside": "three concurrently running actors (more than 200 000 schedules; not exhausted within the budget); two concurrent writers (the stale-final-view part of the property; the atomic set_value of C02 covers its cause); replicated writes",
     "assumptions": ["environment shims", "partial-order reduction: session locks, the database table and the metrics averages are not yield points (checked for contention)"],
 }
@@ -257,13 +257,13 @@ PROPS["C07"] = {
         {"name": "c07_takeover_2nodes", "fn": "c07_election", "params": {"quick": {"secondaries": 1, "triggers": 1, "deviations": 2, "budget": 600, "prim": 1}}},
         {"name": "c07_takeover_3nodes", "fn": "c07_election", "params": {"quick": {"secondaries": 2, "triggers": 1, "deviations": 1, "budget": 400, "prim": 1}, "thorough": {"secondaries": 2, "triggers": 1, "deviations": 2, "budget": 400, "prim": 1}}},
         {"name": "c07_election_3nodes", "fn": "c07_election", "params": {"quick": {"secondaries": 2, "triggers": 1, "deviations": 0, "budget": 400}, "thorough": {"secondaries": 2, "triggers": 1, "deviations": 1, "budget": 400}}, "budget_s": {"quick": 900, "thorough": 7200}},
-        {"name": "c07_rival_claim_2nodes", "fn": "c07_election", "params": {"quick": {"secondaries": 1, "triggers": 1, "deviations": 2, "budget": 600, "war": 1, "early": 2}, "thorough": {"secondaries": 1, "triggers": 1, "deviations": 3, "budget": 600, "war": 1, "early": 3}}, "covers": ["early-wake-up"]},
+        {"name": "c07_rival_claim_2nodes", "fn": "c07_election", "params": {"quick": {"secondaries": 1, "triggers": 1, "deviations": 2, "budget": 600, "war": 1, "early": 2}, "thorough": {"secondaries": 1, "triggers": 1, "deviations": 3, "budget": 600, "war": 1, "early": 2}}, "covers": ["early-wake-up"]},
         {"name": "c07_rival_claim_3nodes", "fn": "c07_election", "params": {"quick": {"secondaries": 2, "triggers": 1, "deviations": 1, "budget": 400, "war": 1, "early": 1}, "thorough": {"secondaries": 2, "triggers": 1, "deviations": 2, "budget": 400, "war": 1, "early": 2}}, "covers": ["early-wake-up"]},
-        {"name": "c07_election_2nodes_early_polls", "fn": "c07_election", "params": {"quick": {"secondaries": 1, "triggers": 1, "deviations": 1, "budget": 600, "early": 1}, "thorough": {"secondaries": 1, "triggers": 1, "deviations": 2, "budget": 600, "early": 2}}, "covers": ["early-wake-up"], "budget_s": {"quick": 900, "thorough": 7200}},
+        {"name": "c07_election_2nodes_early_polls", "fn": "c07_election", "params": {"quick": {"secondaries": 1, "triggers": 1, "deviations": 1, "budget": 600, "early": 1}, "thorough": {"secondaries": 1, "triggers": 1, "deviations": 2, "budget": 600, "early": 1}}, "covers": ["early-wake-up"], "budget_s": {"quick": 900, "thorough": 7200}},
         {"name": "c07_election_2nodes_simultaneous", "fn": "c07_election", "params": {"quick": {"secondaries": 1, "triggers": 2, "deviations": 1, "budget": 600}, "thorough": {"secondaries": 1, "triggers": 2, "deviations": 1, "budget": 600}}, "budget_s": {"quick": 900, "thorough": 7200}},
     ],
     "bounds": {"quick": "cluster of 2 nodes (primary n1 older than n2) with the real start_election / election_eval / election_win / SetPrimary code; every connection handler is its own thread in cooperative mode (runs until it finishes or sleeps in an election wait loop), the real replication loops are polled, every node runs its REAL supervisor coroutine (start_replication_supervisor; only the TCP client loop start_replication is a stub that hands the connection to the harness); take-over variants: an older node n1 has joined a cluster led by n2 (2 and 3 nodes) and wins the forced election, the deposed primary stays; triggers: debug force-election on a solver-chosen node, or on two nodes at once, or a secondary claiming the primary role while the primary is alive (`election win`, what the timeout branches of start_election do: the primary must win the role back and every node must name it again); in the *_early_polls / rival_claim harnesses a handler sleeping in a wait loop may also wake up (2 ms poll) while lines are still in flight, up to 2 times (fewer than the 6 ticks of the election timeout used there); delivery order: dedicated threads first, then connections in link order, with up to 1 (quick; 2 thorough) solver-chosen deviations (2 in the rival-claim and take-over harnesses) to any other enabled event; a sleeping handler takes a timer tick only when nothing can be delivered; NUN_ELECTION_TIMEOUT = 2 ticks; local lemma (c07_pause_recheck): one candidate whose candidacy is acknowledged and which is turned secondary at a solver-chosen pause of start_election must not claim the primary role afterwards; at quiescence (within 600 scheduler steps; the longest run observed takes 161): exactly one primary, it is the older node, the other is secondary, both cluster-states name it",
-               "thorough": "same"},
+               "thorough": "2 deviations in the 2-node forced election and in the 3-node take-over / rival-claim harnesses, 3 in the 2-node rival claim, 1 in the 3-node forced election"},
     "outside": "3-node clusters beyond the default delivery order (c07_election_3nodes: one order per trigger node; the forced election at the youngest node is the recorded finding C07-3nodes-youngest-trigger); node joins and primary death (need the supervisor's connection management, which is not sliced); lock-level preemption inside handlers",
     "assumptions": ["environment shims", "cooperative scheduling: handlers are not preempted between sleeps", "the link pump mirrors handle_client / start_replication"],
 }
